@@ -23,12 +23,13 @@ EXTENDS Integers, Sequences, FiniteSets, TLC
 CONSTANTS GetTagSteps,      \* 1 | 2
           CommitSnapshots,  \* TRUE: the checked content is snapshotted under Buffer.mu
           TwoPhaseCommit,   \* TRUE: the reference lets Commit check and store in two steps (K3)
+          CommitSerialized, \* TRUE: Commit calls on the upload hold a commit lock across both steps (F23 repair)
           Prog              \* Prog[g] = sequence of [op, a]
 
 G == DOMAIN Prog
 
-VARIABLES mans, tag, blobs, buf, snap, pc, idx, loc, poss, resp, sched
-vars == <<mans, tag, blobs, buf, snap, pc, idx, loc, poss, resp, sched>>
+VARIABLES mans, tag, blobs, buf, snap, pc, idx, loc, poss, resp, sched, clock
+vars == <<mans, tag, blobs, buf, snap, pc, idx, loc, poss, resp, sched, clock>>
 
 \* ---------------- sequential reference (restriction of OciRegistry) ----------------
 \* abstract state = [mans, tag, blobs, buf]; results are records
@@ -68,6 +69,7 @@ Init ==
   /\ resp = [g \in G |-> [s |-> "-"]]
   /\ poss = {[st |-> [mans |-> {"m1"}, tag |-> "m1", blobs |-> {}, buf |-> <<1>>], fl |-> [g \in G |-> NoCall]]}
   /\ sched = <<>>
+  /\ clock = "-"          \* holder of the upload's commit lock
 
 \* A scheduling step runs goroutine g from where it is to its next yield point or return
 \* (invocation and the first critical section happen in the same step: the harness cannot
@@ -78,6 +80,8 @@ Finish(g, v, ps) == /\ pc' = [pc EXCEPT ![g] = "idle"] /\ idx' = [idx EXCEPT ![g
 
 Start(g) ==
   /\ pc[g] = "idle" /\ idx[g] <= Len(Prog[g])
+  /\ (CurOp(g).op = "Commit" /\ CommitSerialized) => clock = "-"
+  /\ clock' = IF CurOp(g).op = "Commit" /\ CommitSerialized /\ buf = CurOp(g).a THEN g ELSE clock
   /\ LET o == CurOp(g)
          ps == OnInvoke(g, o) IN
      CASE o.op = "PushTag" -> mans' = mans \cup {o.a} /\ tag' = o.a /\ Finish(g, [s |-> "ok"], ps) /\ UNCHANGED <<blobs, buf, snap, loc>>
@@ -98,6 +102,7 @@ Start(g) ==
 
 Continue(g) ==
   /\ pc[g] = "s2"
+  /\ clock' = IF CurOp(g).op = "Commit" /\ CommitSerialized THEN "-" ELSE clock
   /\ LET o == CurOp(g) IN
      CASE o.op = "GetTag" -> (IF loc[g] \in mans THEN Finish(g, [s |-> loc[g]], poss) ELSE Finish(g, [s |-> "unknown"], poss))
                              /\ UNCHANGED <<mans, tag, blobs, buf, snap, loc>>
@@ -114,5 +119,5 @@ StoredMatchesKey == \A b \in blobs : b.data = b.key
 \* in these programs the tag points at a stored manifest at every instant
 TagNeverFalselyMissing == \A g \in G : (idx[g] > 1 /\ Prog[g][idx[g] - 1].op = "GetTag") => resp[g] # [s |-> "unknown"]
 Done == \A g \in G : pc[g] = "idle" /\ idx[g] > Len(Prog[g])
-ConcView == <<mans, tag, blobs, buf, snap, pc, idx, loc, poss, resp>>
+ConcView == <<mans, tag, blobs, buf, snap, pc, idx, loc, poss, resp, clock>>
 =============================================================================
